@@ -1,0 +1,64 @@
+//go:build verif
+
+// Machine-checked contracts for package operated (comment-only file; see /verif/DESIGN.md).
+package operated
+
+//@ -- C07: shifting is modular translation on the grid; malformed IDs give "".
+//@ -- general case: any string (no-panic sweep, malformed => "")
+//@ func GetShiftingSpatialID
+//@   props C07 C08 C06 C14 C15
+//@   nooverflow
+//@   ensures [malformed] !isext(spatialID) ==> r0 == ""
+//@ end
+
+//@ -- canonical case: spatialID = "gh/gx/gy/gv/gf" with the zoom a constant of the split
+//@ case GetShiftingSpatialID canonical
+//@   shape spatialID ext gh gx gy gv gf
+//@   split gh 0..35
+//@   inline (*ExtendedSpatialID).ResetExtendedSpatialID unroll 0:5
+//@   requires 0 <= gx && gx < pow2(gh) && 0 <= gy && gy < pow2(gh)
+//@   requires 0 - 4 * pow2(gh) <= x && x <= 4 * pow2(gh) && 0 - 4 * pow2(gh) <= y && y <= 4 * pow2(gh)
+//@   requires in64(gf + v)
+//@   ensures [shift] r0 == ext(gh, fmod(gx + x, pow2(gh)), fmod(gy + y, pow2(gh)), gv, gf + v)
+//@   loop 0 invariant gx + x <= shiftXIndex && shiftXIndex <= max(gx + x, pow2(gh) - 1) && fmod(shiftXIndex, pow2(gh)) == fmod(gx + x, pow2(gh))
+//@   loop 1 invariant gy + y <= shiftYIndex && shiftYIndex <= max(gy + y, pow2(gh) - 1) && fmod(shiftYIndex, pow2(gh)) == fmod(gy + y, pow2(gh))
+//@ end
+
+//@ -- C07 consequences, proved over the contract only
+//@ lemma C07_zero_shift_is_identity
+//@   props C07
+//@   var h int
+//@   var x int
+//@   var y int
+//@   var vz int
+//@   var f int
+//@   split h 0..35
+//@   assume 0 <= x && x < pow2(h) && 0 <= y && y < pow2(h) && in64(vz) && in64(f)
+//@   call s := GetShiftingSpatialID(ext(h, x, y, vz, f), 0, 0, 0)
+//@   assert s == ext(h, x, y, vz, f)
+//@ end
+
+//@ lemma C07_shifts_compose_and_invert
+//@   props C07
+//@   var h int
+//@   var x int
+//@   var y int
+//@   var vz int
+//@   var f int
+//@   var a1 int
+//@   var b1 int
+//@   var c1 int
+//@   var a2 int
+//@   var b2 int
+//@   var c2 int
+//@   split h 0..35
+//@   assume 0 <= x && x < pow2(h) && 0 <= y && y < pow2(h) && in64(vz) && in64(f)
+//@   assume abs(a1) <= 4 * pow2(h) && abs(b1) <= 4 * pow2(h) && abs(a2) <= 4 * pow2(h) && abs(b2) <= 4 * pow2(h) && abs(a1 + a2) <= 4 * pow2(h) && abs(b1 + b2) <= 4 * pow2(h)
+//@   assume in64(c1) && in64(c2) && in64(f + c1) && in64(f + c1 + c2) && in64(c1 + c2)
+//@   call s1 := GetShiftingSpatialID(ext(h, x, y, vz, f), a1, b1, c1)
+//@   call s2 := GetShiftingSpatialID(s1, a2, b2, c2)
+//@   call s3 := GetShiftingSpatialID(ext(h, x, y, vz, f), a1 + a2, b1 + b2, c1 + c2)
+//@   assert [compose] s2 == s3
+//@   assert [in-range] s1 == ext(h, val(fld(s1, 1)), val(fld(s1, 2)), vz, f + c1) && 0 <= val(fld(s1, 1)) && val(fld(s1, 1)) < pow2(h) && 0 <= val(fld(s1, 2)) && val(fld(s1, 2)) < pow2(h)
+//@   assert [invert] a2 == 0 - a1 && b2 == 0 - b1 && c2 == 0 - c1 ==> s2 == ext(h, x, y, vz, f)
+//@ end
